@@ -2,7 +2,7 @@
    line written by the Go harness) to the canonical text of the model's
    observable.  Used identically by the extracted OCaml driver and by the
    in-Coq vm_compute evaluation. *)
-From Lungo.Model Require Import Compare RunAccess ApiOps RunOplog RunSpec RunSort File RunMatch Fs FsRun Stream Gridfs Project Arith RunApply.
+From Lungo.Model Require Import Compare RunAccess ApiOps RunOplog RunSpec RunSort File RunMatch Fs FsRun Stream Gridfs Project Arith RunApply RunReload EngineRun SerialRun.
 From Lungo.Spec Require Import RunRef.
 Open Scope string_scope.
 
@@ -33,6 +33,7 @@ Definition runners : list (sexp -> option string) :=
   ; run_sort
   ; run_codec
   ; run_file
+  ; run_reload
   ; run_match
   ; run_matchref
   ; run_fs
@@ -42,6 +43,8 @@ Definition runners : list (sexp -> option string) :=
   ; run_project
   ; run_num
   ; run_apply
+  ; run_engine
+  ; run_serial
   ].
 
 Fixpoint first_some (rs : list (sexp -> option string)) (x : sexp) : string :=
